@@ -288,8 +288,12 @@ func zzPrograms() []zzProg {
 		{"nestedroot", func(d *D, rec *[]zzRec) {
 			d.FieldU("a", 5)
 			inner := vrt.Bytes("inner", 3)
+			if zzConcreteData {
+				inner = []byte{0x5a, 0xc3, 0x0f}
+			}
 			ibits := int64(vrt.IntRange("innerBits", 0, 24))
 			br := bitio.NewBitReader(inner, ibits)
+			zzInnerBuf, zzInnerBits = inner, ibits
 			switch vrt.Choice("how", 3) {
 			case 0:
 				d.FieldRootBitBuf("blob", br)
@@ -362,7 +366,11 @@ func zzPrograms() []zzProg {
 func zzRunProgram(i int, forCover bool) (buf []byte, root *Value, err error, rec []zzRec, fillGaps bool, ok bool) {
 	const N = 6
 	L := vrt.IntRange("bufBytes", 0, N)
-	buf = vrt.Bytes("buf", N)[:L]
+	if zzConcreteData {
+		buf = []byte{0xa5, 0x3c, 0x00, 0xff, 0x81, 0x7e}[:L]
+	} else {
+		buf = vrt.Bytes("buf", N)[:L]
+	}
 	prog := zzPrograms()[i]
 	force := false
 	fillGaps = true
@@ -447,3 +455,44 @@ func VerifTreeNestedRoot() { zzVerifTree(6) }
 func VerifTreeLoop()       { zzVerifTree(7) }
 func VerifTreeSymLayout()  { zzVerifTree(8) }
 func VerifTreeErrors()     { zzVerifTree(9) }
+
+// ---- exported for the pkg/interp harnesses (overlay only) ----
+
+// ZZTree is a decoded tree of program i together with the bytes of its buffers.
+type ZZTree struct {
+	Buf   []byte // top level buffer
+	Inner []byte // buffer of nested roots (program "nestedroot"), nil otherwise
+	InnerBits int64
+	Root  *Value
+	Err   error
+}
+
+var zzConcreteData bool
+var zzInnerBuf []byte
+var zzInnerBits int64
+
+func ZZNumPrograms() int { return len(zzPrograms()) }
+
+func ZZProgramName(i int) string { return zzPrograms()[i].name }
+
+// ZZRunProgram decodes program i (gap filling on) and returns the tree.
+func ZZRunProgram(i int) (ZZTree, bool) { return ZZRunProgramData(i, false) }
+
+// ZZRunProgramShape: fixed bytes and no gap filling (only the shape matters).
+func ZZRunProgramShape(i int) (ZZTree, bool) {
+	zzConcreteData = true
+	defer func() { zzConcreteData = false }()
+	zzInnerBuf, zzInnerBits = nil, 0
+	buf, root, err, _, _, ok := zzRunProgram(i, false)
+	return ZZTree{Buf: buf, Inner: zzInnerBuf, InnerBits: zzInnerBits, Root: root, Err: err}, ok
+}
+
+// ZZRunProgramData: with concrete=true the buffers hold fixed bytes (for checks
+// whose subject is the tree shape, not the data).
+func ZZRunProgramData(i int, concrete bool) (ZZTree, bool) {
+	zzConcreteData = concrete
+	defer func() { zzConcreteData = false }()
+	zzInnerBuf, zzInnerBits = nil, 0
+	buf, root, err, _, _, ok := zzRunProgram(i, true)
+	return ZZTree{Buf: buf, Inner: zzInnerBuf, InnerBits: zzInnerBits, Root: root, Err: err}, ok
+}
